@@ -132,13 +132,13 @@ theorem block_zlp (c : Config) (s0 : State) (ty idx l p w : Nat) (d : List Nat)
     (hty : ty < 256) (hidx : idx < 256) (hpres : Present c ty idx d w)
     (h0 : s0.fsm = .idle) (hmps' : c.mps < 65536) (hl : l < 65536)
     (hp : p ≤ min l d.length) (hp' : ¬ p < min l d.length) (rs : List Bool) :
-    ∃ lat, lat ≤ 4 ∧ run c s0 (reqInputs (ty * 256 + idx) l p rs) = delayed lat (pulseTrace zlpBeat) rs := by
+    ∃ lat, 1 ≤ lat ∧ lat ≤ 4 ∧ run c s0 (reqInputs (ty * 256 + idx) l p rs) = delayed lat (pulseTrace zlpBeat) rs := by
   obtain ⟨hv1, hv2⟩ := value_split ty idx hidx hty
   have hL := nextLength_inorder c.mps l p (by omega) hl hmps'
   have hdl : d.length < 2 ^ c.img.posW := Nat.lt_of_le_of_lt hpres.hmax (lt_two_pow_bitsFor _)
   have hpp : p % 2 ^ c.img.posW = p := Nat.mod_eq_of_lt (by omega)
   by_cases hLz : nextLength c.mps l p = 0
-  · refine ⟨3, by omega, ?_⟩
+  · refine ⟨3, by omega, by omega, ?_⟩
     apply run_request_first c s0 _ l p 2 _ h0
     intro r0 rs
     rw [step_idle c s0 _ h0]
@@ -158,7 +158,7 @@ theorem block_zlp (c : Config) (s0 : State) (ty idx l p w : Nat) (d : List Nat)
     simp only [hLz, if_true]
     show run c _ (holdInputs _ l p rs) = pulseTrace zlpBeat rs
     exact run_pulse c _ _ l p zlpBeat (fun r => step_zlp c _ _ rfl) rs
-  · refine ⟨4, by omega, ?_⟩
+  · refine ⟨4, by omega, by omega, ?_⟩
     apply run_request_first c s0 _ l p 3 _ h0
     intro r0 rs
     rw [step_idle c s0 _ h0]
@@ -191,10 +191,10 @@ theorem block_zlp (c : Config) (s0 : State) (ty idx l p w : Nat) (d : List Nat)
 theorem block_stall (c : Config) (s0 : State) (ty idx l p : Nat)
     (hty : ty < 256) (hidx : idx < 256) (hnone : c.img.lookup ty idx = none)
     (h0 : s0.fsm = .idle) (rs : List Bool) :
-    ∃ lat, lat ≤ 2 ∧ run c s0 (reqInputs (ty * 256 + idx) l p rs) = delayed lat (pulseTrace stallBeat) rs := by
+    ∃ lat, 1 ≤ lat ∧ lat ≤ 2 ∧ run c s0 (reqInputs (ty * 256 + idx) l p rs) = delayed lat (pulseTrace stallBeat) rs := by
   obtain ⟨hv1, hv2⟩ := value_split ty idx hidx hty
   rcases lookup_none _ _ _ hnone with hbig | ⟨hin, hcnt⟩
-  · refine ⟨1, by omega, ?_⟩
+  · refine ⟨1, by omega, by omega, ?_⟩
     apply run_request_first c s0 _ l p 0 _ h0
     intro r0 rs
     rw [step_idle c s0 _ h0]
@@ -202,7 +202,7 @@ theorem block_stall (c : Config) (s0 : State) (ty idx l p : Nat)
     show run c _ (holdInputs _ l p rs) = pulseTrace stallBeat rs
     exact run_pulse c _ _ l p stallBeat
       (fun r => step_start_stall c _ _ rfl (by show ¬ _ ≤ _; simp only [hv1]; exact hbig)) rs
-  · refine ⟨2, by omega, ?_⟩
+  · refine ⟨2, by omega, by omega, ?_⟩
     apply run_request_first c s0 _ l p 1 _ h0
     intro r0 rs
     rw [step_idle c s0 _ h0]
